@@ -491,9 +491,9 @@ def stageActs (c : Cfg) (k : Nat) (pid : Pid) (kind : Kind) : List Act :=
    | .exit code => [.exit pid code]
    | .notfound => [.exit pid 127])
 
-def launchActs (c : Cfg) (n0 : Nat) (bg : Bool) (kinds : List Kind) : List Act :=
+def launchActs (c : Cfg) (cmdOf : Nat → Kind → String) (n0 : Nat) (bg : Bool) (kinds : List Kind) : List Act :=
   let idx := List.range kinds.length
-  let cmds := (idx.zip kinds).map fun (k, kd) => stageCmd (n0 + k + 1) kd
+  let cmds := (idx.zip kinds).map fun (k, kd) => cmdOf (n0 + k + 1) kd
   [Act.launch bg cmds] ++ (idx.zip kinds).flatMap (fun (k, kd) => stageActs c k (pidBase + n0 + k + 1) kd) ++ [.launched]
 
 /-- the number `fg` / `bg` without an argument resolve to when the table holds exactly one job -/
@@ -505,10 +505,10 @@ def extSignal (c : Cfg) (s : State) (i : Nat) (sg : Sig) : Option State :=
   | some s' => some s'
   | none => some s
 
-def runMacro (c : Cfg) (pref : List Pid) (s : State) (a : SAct) : Option State :=
+def runMacro (c : Cfg) (cmdOf : Nat → Kind → String) (pref : List Pid) (s : State) (a : SAct) : Option State :=
   let fin := fun (s' : State) => settle c pref (settleFuel s') s'
   match a with
-  | .launch bg kinds => (run c s (launchActs c s.procs.length bg kinds)).bind fin
+  | .launch bg kinds => (run c s (launchActs c cmdOf s.procs.length bg kinds)).bind fin
   | .ctrlZ => (step c s .ctrlZ).bind fin
   | .ctrlC => (step c s .ctrlC).bind fin
   | .fg (some n) => (step c s (.fg n true)).bind fin
